@@ -53,7 +53,7 @@ const (
 
 type vfC07Step struct {
 	At        int64  `json:"at_ns"`
-	Op        string `json:"op"` // msg reply readerr snap end
+	Op        string `json:"op"` // msg reply readerr snap awaitsweep
 	Sid       uint32 `json:"sid,omitempty"`
 	No        int    `json:"no,omitempty"`
 	Dst       int    `json:"dst,omitempty"`
@@ -409,6 +409,7 @@ func vfC07GenScript(r *rand.Rand, caseID string, forceRole string) *vfC07Script 
 // vfC07Drive plays the script on the bubble's clock.
 func vfC07Drive(sc *vfC07Script) func(w *vfC07World, sm *udpSessionManager) {
 	return func(w *vfC07World, sm *udpSessionManager) {
+		var gateBuf []byte
 		for i := range sc.Steps {
 			st := &sc.Steps[i]
 			if d := time.Duration(st.At) - time.Since(w.start); d > 0 {
@@ -443,6 +444,11 @@ func vfC07Drive(sc *vfC07Script) func(w *vfC07World, sm *udpSessionManager) {
 				w.InjectReadErr(st.Sid)
 			case "snap":
 				w.Snapshot(sm, false)
+			case "awaitsweep":
+				if gateBuf == nil {
+					gateBuf = make([]byte, 1<<20)
+				}
+				w.AwaitSweepThenOpen(sm, st.Sid, gateBuf)
 			}
 		}
 		if d := time.Duration(sc.EndAt) - time.Since(w.start); d > 0 {
@@ -606,6 +612,9 @@ func vfC07RunCase(t *testing.T, k *vfKit, sc *vfC07Script, stackBuf []byte, trac
 			k.Count("sends_too_large", 1)
 		}
 	}
+	for o, n := range w.gateOutcome {
+		k.Count("gate_"+o, int64(n))
+	}
 	k.Count("idle_closes", int64(idle))
 	tr := vfC07Trace(w)
 	if !traces[tr] {
@@ -710,5 +719,101 @@ func TestVerifC07Boundary(t *testing.T) {
 				}
 			}
 		}
+	}
+}
+
+// TestVerifC07SlowDial: the dial (or the request hook) of a new session is still in flight when
+// the sweeper comes for that session. Deterministic: the fake dial / hook is gated (parks until the
+// driver opens the gate), it starts more than the idle timeout before a sweep instant, and at that
+// instant the driver waits -- spinning, no clock -- until the sweeper either waits for the
+// session's lock or has closed the session, then lets the dial finish (AwaitSweepThenOpen).
+// Whatever the implementation does in that window, afterwards the usual oracles must hold: the
+// freshly dialled socket is closed exactly once, nothing is written after the session's Close
+// event, open sockets belong to existing sessions, and after the IO ends nothing is left.
+func TestVerifC07SlowDial(t *testing.T) {
+	k := vfNewKit(t, "C07", "udp-slowdial")
+	defer k.Finish()
+	stackBuf := make([]byte, 4<<20)
+	traces := map[string]bool{}
+	i := 0
+	reps := k.N(1, 6)
+	for rep := 0; rep < reps; rep++ {
+		for _, tm := range []int64{100 * vfC07Ms, 300 * vfC07Ms} {
+			for _, gate := range []string{"dial", "hook", "hook-rewrite"} {
+				for _, lead := range []int64{vfC07Ms, 50 * vfC07Ms, 600 * vfC07Ms} { // dial starts tm+lead before the sweep
+					for _, others := range []int{0, 3} {
+						for _, after := range []string{"end", "queued", "reply", "reuse"} {
+							i++
+							caseID := fmt.Sprintf("sd-%d", i)
+							if rc := k.ReplayCase(); rc != "" && rc != caseID {
+								continue
+							}
+							r := k.Rand(caseID)
+							sid := uint32(9000 + i)
+							sc := &vfC07Script{CaseID: caseID, Timeout: tm, Sids: []uint32{sid}, Roles: map[string]string{fmt.Sprint(sid): "gated-" + gate + "/" + after},
+								Plan: &vfC07Plan{NoDelays: true}}
+							g := &vfC07Gen{r: r, sc: sc, tm: tm}
+							p := sc.Plan
+							sweep := int64(1+r.Intn(3)) * vfC07Sec
+							t0 := sweep - tm - lead
+							switch gate {
+							case "dial":
+								p.setB(&p.DialGate, sid, 0)
+							case "hook":
+								p.setB(&p.HookGate, sid, 0)
+							case "hook-rewrite":
+								p.setB(&p.HookGate, sid, 0)
+								p.setHook(sid, 0, vfC07HookRewrite)
+							}
+							// bystanders: sessions with sockets, some expiring in the same sweep, some kept
+							for o := 0; o < others; o++ {
+								osid := uint32(100 + o)
+								sc.Sids = append(sc.Sids, osid)
+								sc.Roles[fmt.Sprint(osid)] = "bystander"
+								g.msg(int64(o)*vfC07Ms, osid, 0, 40, "bystander")
+								if o%2 == 0 {
+									g.msg(sweep-tm/2, osid, 0, 40, "bystander kept over the sweep")
+								}
+							}
+							g.msg(t0, sid, 0, 64, "first datagram: its "+gate+" is still in flight at the sweep")
+							if after == "queued" {
+								g.msg(t0+vfC07Ms, sid, 1, 64, "queued behind the dial")
+							}
+							sc.Steps = append(sc.Steps, vfC07Step{At: sweep, Op: "awaitsweep", Sid: sid, Note: "sweeper meets the in-flight " + gate})
+							end := sweep + tm + 2500*vfC07Ms
+							switch after {
+							case "reply":
+								g.op(sweep+10*vfC07Ms, "reply", sid, 48, "remote answers on whatever socket is open")
+							case "reuse":
+								g.msg(sweep+20*vfC07Ms, sid, 0, 64, "same id again after the sweep")
+								g.op(sweep+30*vfC07Ms, "reply", sid, 48, "")
+								end = vfC07FirstGridAfter(sweep+20*vfC07Ms+tm) + 2500*vfC07Ms
+							}
+							if r.Intn(3) == 0 {
+								end = sweep + 40*vfC07Ms // connection lost right after
+							}
+							sc.EndAt = end
+							for _, at := range []int64{sweep + 5*vfC07Ms, sweep + 35*vfC07Ms, end} {
+								if at <= end {
+									sc.Steps = append(sc.Steps, vfC07Step{At: at, Op: "snap"})
+								}
+							}
+							sort.SliceStable(sc.Steps, func(a, b int) bool { return sc.Steps[a].At < sc.Steps[b].At })
+							kept := sc.Steps[:0]
+							for _, st := range sc.Steps {
+								if st.At <= end {
+									kept = append(kept, st)
+								}
+							}
+							sc.Steps = kept
+							vfC07RunCase(t, k, sc, stackBuf, traces)
+						}
+					}
+				}
+			}
+		}
+	}
+	if k.Counter("gate_lock-wait")+k.Counter("gate_closed") == 0 && k.ReplayCase() == "" {
+		k.Inconclusive("the sweeper never met an in-flight dial: neither a lock wait nor a close was observed")
 	}
 }
